@@ -133,6 +133,125 @@ func (n *node) createPartitions(name string, count int32) (int16, error) {
 	return resp.Topics[0].ErrorCode, nil
 }
 
+// ---- topic configuration ------------------------------------------------------
+
+// incrAlterTopic sends IncrementalAlterConfigs with one SET (val != nil) or
+// DELETE (val == nil) for the topic resource.
+func (n *node) incrAlterTopic(topic, key string, val *string) (int16, error) {
+	r := kmsg.NewPtrIncrementalAlterConfigsRequest()
+	rr := kmsg.NewIncrementalAlterConfigsRequestResource()
+	rr.ResourceType, rr.ResourceName = kmsg.ConfigResourceTypeTopic, topic
+	rc := kmsg.NewIncrementalAlterConfigsRequestResourceConfig()
+	rc.Name, rc.Value = key, val
+	rc.Op = kmsg.IncrementalAlterConfigOpSet
+	if val == nil {
+		rc.Op = kmsg.IncrementalAlterConfigOpDelete
+	}
+	rr.Configs = append(rr.Configs, rc)
+	r.Resources = append(r.Resources, rr)
+	kr, err := n.req(r)
+	if err != nil {
+		return 0, err
+	}
+	resp := kr.(*kmsg.IncrementalAlterConfigsResponse)
+	if len(resp.Resources) != 1 {
+		return 0, infraf("IncrementalAlterConfigs: %d resources in response", len(resp.Resources))
+	}
+	return resp.Resources[0].ErrorCode, nil
+}
+
+// legacyAlterTopic sends AlterConfigs (non-incremental): the topic's dynamic
+// configuration becomes exactly cfgs.
+func (n *node) legacyAlterTopic(topic string, cfgs map[string]string) (int16, error) {
+	r := kmsg.NewPtrAlterConfigsRequest()
+	rr := kmsg.NewAlterConfigsRequestResource()
+	rr.ResourceType, rr.ResourceName = kmsg.ConfigResourceTypeTopic, topic
+	keys := make([]string, 0, len(cfgs))
+	for k := range cfgs {
+		keys = append(keys, k)
+	}
+	sort.Strings(keys)
+	for _, k := range keys {
+		rc := kmsg.NewAlterConfigsRequestResourceConfig()
+		rc.Name, rc.Value = k, kmsg.StringPtr(cfgs[k])
+		rr.Configs = append(rr.Configs, rc)
+	}
+	r.Resources = append(r.Resources, rr)
+	kr, err := n.req(r)
+	if err != nil {
+		return 0, err
+	}
+	resp := kr.(*kmsg.AlterConfigsResponse)
+	if len(resp.Resources) != 1 {
+		return 0, infraf("AlterConfigs: %d resources in response", len(resp.Resources))
+	}
+	return resp.Resources[0].ErrorCode, nil
+}
+
+// topicConfigs reads the configuration of the topics back with DescribeConfigs
+// and returns, per topic, the entries whose source is the dynamic topic
+// configuration (what was explicitly set on the topic), rendered canonically
+// as "k=v,k=v" with sorted keys ("" = nothing set).
+func (n *node) topicConfigs(topics []string) (map[string]string, error) {
+	out := map[string]string{}
+	if len(topics) == 0 {
+		return out, nil
+	}
+	r := kmsg.NewPtrDescribeConfigsRequest()
+	for _, t := range topics {
+		rr := kmsg.NewDescribeConfigsRequestResource()
+		rr.ResourceType, rr.ResourceName = kmsg.ConfigResourceTypeTopic, t
+		rr.ConfigNames = nil // all
+		r.Resources = append(r.Resources, rr)
+	}
+	kr, err := n.req(r)
+	if err != nil {
+		return nil, err
+	}
+	resp := kr.(*kmsg.DescribeConfigsResponse)
+	if len(resp.Resources) != len(topics) {
+		return nil, infraf("DescribeConfigs: %d resources in response, asked for %d", len(resp.Resources), len(topics))
+	}
+	for _, res := range resp.Resources {
+		if res.ErrorCode != 0 {
+			return nil, fmt.Errorf("DescribeConfigs topic %s: error code %d", res.ResourceName, res.ErrorCode)
+		}
+		set := map[string]string{}
+		for _, c := range res.Configs {
+			if c.Source != kmsg.ConfigSourceDynamicTopicConfig {
+				continue
+			}
+			v := "<null>"
+			if c.Value != nil {
+				v = *c.Value
+			}
+			if _, dup := set[c.Name]; dup {
+				return nil, fmt.Errorf("DescribeConfigs topic %s: config %s is listed twice", res.ResourceName, c.Name)
+			}
+			set[c.Name] = v
+		}
+		out[res.ResourceName] = canonCfg(set)
+	}
+	return out, nil
+}
+
+// canonCfg renders a set of explicitly set topic configs canonically.
+func canonCfg(set map[string]string) string {
+	keys := make([]string, 0, len(set))
+	for k := range set {
+		keys = append(keys, k)
+	}
+	sort.Strings(keys)
+	s := ""
+	for i, k := range keys {
+		if i > 0 {
+			s += ","
+		}
+		s += k + "=" + set[k]
+	}
+	return s
+}
+
 type topicMeta struct {
 	Name  string   `json:"name"`
 	ID    [16]byte `json:"id"`
@@ -183,9 +302,20 @@ const baseTimestamp = 1_700_000_000_000
 // craftBatch builds a v2 RecordBatch with n records whose values are
 // "<tag>/<i>". seq/pid/epoch -1 = non-idempotent.
 func craftBatch(tag string, n int, pid int64, epoch int16, seq int32, txn bool, ts int64) []byte {
+	return craftBatchPad(tag, n, 0, pid, epoch, seq, txn, ts)
+}
+
+// craftBatchPad is craftBatch with pad further bytes (a fixed non-repeating
+// pattern) appended to the value of the first record: batches of a chosen size.
+func craftBatchPad(tag string, n, pad int, pid int64, epoch int16, seq int32, txn bool, ts int64) []byte {
 	var recs []byte
 	for i := 0; i < n; i++ {
 		r := kmsg.Record{OffsetDelta: int32(i), Key: []byte(fmt.Sprintf("k%d", i)), Value: []byte(fmt.Sprintf("%s/%d", tag, i))}
+		if i == 0 {
+			for j := 0; j < pad; j++ {
+				r.Value = append(r.Value, byte('A'+(j*7+j/26)%26))
+			}
+		}
 		body := r.AppendTo(nil)
 		r.Length = int32(len(body) - 1) // Length 0 encodes as one varint byte
 		recs = r.AppendTo(recs)
